@@ -7,6 +7,16 @@ use std::sync::Arc;
 use crate::error::{FerrousError, Result};
 use super::resp::RespFrame;
 
+/// Largest bulk string accepted (same limit as Redis: 512 MB)
+const MAX_BULK_LEN: usize = 512 * 1024 * 1024;
+
+/// Largest number of elements accepted in one aggregate (same limit as Redis' multibulk length)
+const MAX_AGGREGATE_LEN: usize = 1024 * 1024;
+
+/// Deepest nesting of aggregates accepted. The parser is recursive: without a limit a frame
+/// made of tens of thousands of nested arrays overflows the stack.
+const MAX_NESTING_DEPTH: usize = 128;
+
 /// Parser state for incremental RESP parsing
 #[derive(Clone)]
 pub struct RespParser {
@@ -68,7 +78,7 @@ impl RespParser {
         }
         
         // Handle normal RESP protocol
-        match parse_frame(&self.buffer[self.position..])? {
+        match parse_frame(&self.buffer[self.position..], 0)? {
             Some((frame, consumed)) => {
                 self.position += consumed;
                 
@@ -100,13 +110,17 @@ impl RespParser {
 /// Parse a RESP frame from a byte slice
 /// Returns Some((frame, bytes_consumed)) if a complete frame is found
 pub fn parse_resp_frame(data: &[u8]) -> Result<Option<(RespFrame, usize)>> {
-    parse_frame(data)
+    parse_frame(data, 0)
 }
 
 /// Internal frame parser
-fn parse_frame(data: &[u8]) -> Result<Option<(RespFrame, usize)>> {
+fn parse_frame(data: &[u8], depth: usize) -> Result<Option<(RespFrame, usize)>> {
     if data.is_empty() {
         return Ok(None);
+    }
+    
+    if depth > MAX_NESTING_DEPTH {
+        return Err(FerrousError::Protocol("Aggregate types nested too deeply".into()));
     }
     
     match data[0] {
@@ -114,12 +128,12 @@ fn parse_frame(data: &[u8]) -> Result<Option<(RespFrame, usize)>> {
         b'-' => parse_error(data),
         b':' => parse_integer(data),
         b'$' => parse_bulk_string(data),
-        b'*' => parse_array(data),
+        b'*' => parse_array(data, depth),
         b'_' => parse_null(data),
         b'#' => parse_boolean(data),
         b',' => parse_double(data),
-        b'%' => parse_map(data),
-        b'~' => parse_set(data),
+        b'%' => parse_map(data, depth),
+        b'~' => parse_set(data, depth),
         _ => Err(FerrousError::Protocol(format!(
             "Invalid RESP type byte: {}", data[0] as char
         ))),
@@ -178,6 +192,9 @@ fn parse_bulk_string(data: &[u8]) -> Result<Option<(RespFrame, usize)>> {
     }
     
     let len = len as usize;
+    if len > MAX_BULK_LEN {
+        return Err(FerrousError::Protocol("Bulk string length exceeds the 512MB limit".into()));
+    }
     let total_needed = header_consumed + len + 2; // +2 for \r\n
     
     if data.len() < total_needed {
@@ -194,7 +211,7 @@ fn parse_bulk_string(data: &[u8]) -> Result<Option<(RespFrame, usize)>> {
 }
 
 /// Parse an array: *2\r\n$3\r\nfoo\r\n$3\r\nbar\r\n
-fn parse_array(data: &[u8]) -> Result<Option<(RespFrame, usize)>> {
+fn parse_array(data: &[u8], depth: usize) -> Result<Option<(RespFrame, usize)>> {
     let (len_line, header_consumed) = match parse_line(data, 1)? {
         Some(v) => v,
         None => return Ok(None),
@@ -214,11 +231,15 @@ fn parse_array(data: &[u8]) -> Result<Option<(RespFrame, usize)>> {
     }
     
     let len = len as usize;
-    let mut elements = Vec::with_capacity(len);
+    if len > MAX_AGGREGATE_LEN {
+        return Err(FerrousError::Protocol("Array length exceeds the limit".into()));
+    }
+    // Every element takes at least one byte: never reserve more than has been received
+    let mut elements = Vec::with_capacity(len.min(data.len()));
     let mut total_consumed = header_consumed;
     
     for _ in 0..len {
-        match parse_frame(&data[total_consumed..])? {
+        match parse_frame(&data[total_consumed..], depth + 1)? {
             Some((frame, consumed)) => {
                 elements.push(frame);
                 total_consumed += consumed;
@@ -268,7 +289,7 @@ fn parse_double(data: &[u8]) -> Result<Option<(RespFrame, usize)>> {
 }
 
 /// Parse map (RESP3): %2\r\n+key1\r\n:1\r\n+key2\r\n:2\r\n
-fn parse_map(data: &[u8]) -> Result<Option<(RespFrame, usize)>> {
+fn parse_map(data: &[u8], depth: usize) -> Result<Option<(RespFrame, usize)>> {
     let (len_line, header_consumed) = match parse_line(data, 1)? {
         Some(v) => v,
         None => return Ok(None),
@@ -279,12 +300,15 @@ fn parse_map(data: &[u8]) -> Result<Option<(RespFrame, usize)>> {
     let len = len_str.parse::<usize>()
         .map_err(|_| FerrousError::Protocol("Invalid map length".into()))?;
     
-    let mut pairs = Vec::with_capacity(len);
+    if len > MAX_AGGREGATE_LEN {
+        return Err(FerrousError::Protocol("Map length exceeds the limit".into()));
+    }
+    let mut pairs = Vec::with_capacity(len.min(data.len()));
     let mut total_consumed = header_consumed;
     
     for _ in 0..len {
         // Parse key
-        let key = match parse_frame(&data[total_consumed..])? {
+        let key = match parse_frame(&data[total_consumed..], depth + 1)? {
             Some((frame, consumed)) => {
                 total_consumed += consumed;
                 frame
@@ -293,7 +317,7 @@ fn parse_map(data: &[u8]) -> Result<Option<(RespFrame, usize)>> {
         };
         
         // Parse value
-        let value = match parse_frame(&data[total_consumed..])? {
+        let value = match parse_frame(&data[total_consumed..], depth + 1)? {
             Some((frame, consumed)) => {
                 total_consumed += consumed;
                 frame
@@ -308,7 +332,7 @@ fn parse_map(data: &[u8]) -> Result<Option<(RespFrame, usize)>> {
 }
 
 /// Parse set (RESP3): ~2\r\n+elem1\r\n+elem2\r\n
-fn parse_set(data: &[u8]) -> Result<Option<(RespFrame, usize)>> {
+fn parse_set(data: &[u8], depth: usize) -> Result<Option<(RespFrame, usize)>> {
     let (len_line, header_consumed) = match parse_line(data, 1)? {
         Some(v) => v,
         None => return Ok(None),
@@ -319,11 +343,14 @@ fn parse_set(data: &[u8]) -> Result<Option<(RespFrame, usize)>> {
     let len = len_str.parse::<usize>()
         .map_err(|_| FerrousError::Protocol("Invalid set length".into()))?;
     
-    let mut elements = Vec::with_capacity(len);
+    if len > MAX_AGGREGATE_LEN {
+        return Err(FerrousError::Protocol("Set length exceeds the limit".into()));
+    }
+    let mut elements = Vec::with_capacity(len.min(data.len()));
     let mut total_consumed = header_consumed;
     
     for _ in 0..len {
-        match parse_frame(&data[total_consumed..])? {
+        match parse_frame(&data[total_consumed..], depth + 1)? {
             Some((frame, consumed)) => {
                 elements.push(frame);
                 total_consumed += consumed;
